@@ -172,7 +172,7 @@ def main(run, focus, extra_corr=None):
     inputs, exh = default_inputs(run, rng, focus)
     corr = {"name": "differ", "cases": 0, "bad": [], "log": "", "describe": lambda i: {}, "built": []}
     if pinfo.get("build_ok"):
-        corr = differ_corr.run_corr(focus, inputs, check="check_dcase")
+        corr = differ_corr.run_corr(focus, inputs, check="check_rcase")
         built = corr["built"]
     else:
         built = [c for c in (differ_corr.build_case(*i) for i in inputs) if c]
